@@ -42,6 +42,7 @@ RULE = ("Schedules: Hypothesis draws a type shape (plain nested, self-recursive,
 ASSUMPTIONS = ["the deterministic mode only interleaves at the injected yield points",
                "stress mode failures are genuine but not exactly replayable: their replay file re-runs the stress case"]
 BUDGET = {"quick": 250, "thorough": 4000}
+FUZZ = {"quick": 0, "thorough": 1000}
 SHARDS = {"quick": 8, "thorough": 16}
 MIN_NONTRIVIAL = {"quick": 250, "thorough": 5000}
 TECHNIQUE = "schedule fuzzing: Hypothesis-generated interleavings replayed by a deterministic baton scheduler with injected yield points; oracle concurrent = warm-after = cold sequential"
